@@ -211,7 +211,7 @@ fn gen_cmd(args: &[String]) -> i32 {
             let cols: Vec<String> = ["a", "b", "c"].iter().map(|s| s.to_string()).collect();
             let rows = [["0/1", "1/1", "0/0"], ["0/0", "0|1", "./."], ["1/1", "0/1", "1/2"]];
             let recs: Vec<gen::Rec> = rows.iter().enumerate().map(|(i, r)| gen::Rec {
-                contig: "chr1".into(), pos: (i + 1) as u64, bad: false, nogt: false,
+                contig: "chr1".into(), pos: (i + 1) as u64, bad: false, nogt: false, short_alt: false,
                 gt: cols.iter().cloned().zip(r.iter().map(|s| s.to_string())).collect(),
             }).collect();
             fs::write(&args[1], gen::own_bcf(&cols, &recs)).expect("write");
